@@ -62,7 +62,7 @@ func c08LiveQuery(t geom.T, m *ref.G, final bool) string {
 func init() {
 	engine.Register(&engine.Check{
 		ID: "C08", Level: "model_checking",
-		Rule: "(a) every geometry of U (6 layouts, non-monotonic values; plus every {finite,+Inf,-Inf} assignment to one dimension of 3-coordinate lines and multipoints) and every collection of 0..3 members over an 8-member menu (mixed layouts, empty members, nested and empty nested collections; collections with a SetLayout-fixed layout over nested collections that mix lower layouts): Bounds() per semantic dimension vs reference fold, IsEmpty, Bounds.Polygon, GeoJSON bbox; (b) BFS over Extend histories (depth <=4 quick, <=5 thorough) from NewBounds(l), l in {NoLayout,XY,XYZ,XYM,XYZM}, as is or filled through SetCoords / Set, alphabet = 1-point, 2-point and empty geometry per layout, and a second alphabet of one-point geometries with +Inf/-Inf ordinates: state = (layout, min bits, max bits); every state compared per semantic dimension with the fold over the multiset and with every other history reaching the same multiset; (c) Overlaps/OverlapsPoint on all pairs of boxes with interval endpoints in {0..3} (2D) / {0..2} (3D) incl. empty intervals vs closed-interval arithmetic Also: overlap queries in a narrower layout than the boxes (extra dimensions holding an interval or nothing), and every query / in-place change / query history of length <=3 (thorough 4) on live geometries and collections (members edited or pushed into after the collection was asked for its bounds; the returned box extended by the caller). Round 7: collection members without coordinates that bring a dimension of their own (GeoJSON bbox compared whenever every dimension it carries has data); rings, lines and polygon rings closed in X,Y only whose closing coordinate holds the extreme of an extra dimension. Round 8: Extend histories over a third alphabet of Point-typed geometries with interleaved Z and M values; Bounds() unchanged by SetSRID. Round 9: every pair of 3-D boxes again with one or both boxes created for XY / no layout and Set beyond it. Round 10: intervals with infinite ends in the overlap families.",
+		Rule: "(a) every geometry of U (6 layouts, non-monotonic values; plus every {finite,+Inf,-Inf} assignment to one dimension of 3-coordinate lines and multipoints) and every collection of 0..3 members over an 8-member menu (mixed layouts, empty members, nested and empty nested collections; collections with a SetLayout-fixed layout over nested collections that mix lower layouts): Bounds() per semantic dimension vs reference fold, IsEmpty, Bounds.Polygon, GeoJSON bbox; (b) BFS over Extend histories (depth <=4 quick, <=5 thorough) from NewBounds(l), l in {NoLayout,XY,XYZ,XYM,XYZM}, as is or filled through SetCoords / Set, alphabet = 1-point, 2-point and empty geometry per layout, and a second alphabet of one-point geometries with +Inf/-Inf ordinates: state = (layout, min bits, max bits); every state compared per semantic dimension with the fold over the multiset and with every other history reaching the same multiset; (c) Overlaps/OverlapsPoint on all pairs of boxes with interval endpoints in {0..3} (2D) / {0..2} (3D) incl. empty intervals vs closed-interval arithmetic Also: overlap queries in a narrower layout than the boxes (extra dimensions holding an interval or nothing), and every query / in-place change / query history of length <=3 (thorough 4) on live geometries and collections (members edited or pushed into after the collection was asked for its bounds; the returned box extended by the caller). Round 7: collection members without coordinates that bring a dimension of their own (GeoJSON bbox compared whenever every dimension it carries has data); rings, lines and polygon rings closed in X,Y only whose closing coordinate holds the extreme of an extra dimension. Round 8: Extend histories over a third alphabet of Point-typed geometries with interleaved Z and M values; Bounds() unchanged by SetSRID. Round 9: every pair of 3-D boxes again with one or both boxes created for XY / no layout and Set beyond it. Round 10: intervals with infinite ends in the overlap families. Round 11: bbox together with a digits limit - for d in 0..6 and m in [-130,130] the decimal tie (m+1/2)*10^-d and its +-1,+-2 ulp neighbours as extreme ordinates: the box as written equals the min/max of the coordinates as written.",
 		Run:  c08Run,
 		Replay: func(c *engine.Ctx, kind string, raw json.RawMessage) {
 			if kind == "c08-history" {
